@@ -69,7 +69,11 @@ func HarnessC17(k, final, form int) {
 			vnAssume(false)
 		}
 		outS = hStructType(labels[:k])
-		outs = append(outs, outS)
+		if form == 2 {
+			outs = append(outs, reflect.PtrTo(outS))
+		} else {
+			outs = append(outs, outS)
+		}
 	}
 	switch final {
 	case 1:
@@ -98,6 +102,9 @@ func HarnessC17(k, final, form int) {
 			}
 			ptrObjs[i] = &hErrT{ID: i}
 		}
+		if form == 2 && i == 0 && vnBool("nilStructPtr") {
+			isNil[0] = true // the function returns a nil *struct
+		}
 		desc += fmt.Sprintf("%v(nil=%v) ", outs[i], isNil[i])
 	}
 	vnNote(fmt.Sprintf("k=%d final=%d form=%d results: %s", k, final, form, desc))
@@ -120,12 +127,19 @@ func HarnessC17(k, final, form int) {
 				} else {
 					res[i] = reflect.ValueOf(ptrObjs[i])
 				}
-			case form == 1 && i == 0:
-				s := reflect.New(outS).Elem()
+			case form >= 1 && i == 0:
+				sp := reflect.New(outS)
 				for j := 0; j < k; j++ {
-					s.Field(j + 1).Set(reflect.ValueOf(hMk(labels[j].T, payload[0]+j)))
+					sp.Elem().Field(j + 1).Set(reflect.ValueOf(hMk(labels[j].T, payload[0]+j)))
 				}
-				res[i] = s
+				switch {
+				case form == 2 && isNil[0]:
+					res[i] = reflect.Zero(reflect.PtrTo(outS))
+				case form == 2:
+					res[i] = sp
+				default:
+					res[i] = sp.Elem()
+				}
 			case t == hType(hTP0):
 				res[i] = reflect.ValueOf(hP0{payload[i]})
 			case t == hType(hTP1):
@@ -194,8 +208,20 @@ func HarnessC17(k, final, form int) {
 					vnAssert(p == ptrObjs[i], "C17.out-concrete-error-value")
 				}
 			}
-		case form == 1 && i == 0:
+		case form >= 1 && i == 0:
 			gv := reflect.ValueOf(got)
+			if form == 2 {
+				vnAssert(gv.IsValid() && gv.Type() == reflect.PtrTo(outS), "C17.out-pointer-struct-type")
+				if !gv.IsValid() || gv.Type() != reflect.PtrTo(outS) {
+					break
+				}
+				vnAssert(gv.IsNil() == isNil[0], "C17.out-pointer-struct-nilness-is-the-function's")
+				if gv.IsNil() {
+					vnCover("C17.nil-pointer-struct-checked")
+					break
+				}
+				gv = gv.Elem()
+			}
 			vnAssert(gv.Type() == outS, "C17.out-struct-type")
 			if gv.Type() == outS {
 				for j := 0; j < k; j++ {
@@ -261,12 +287,27 @@ func HarnessC17Once(form int) {
 	}
 	w.Vals = []hVal{{L: hLabel{T: hTP0}, ID: vnPayload("x")}}
 	vnNote(w.String())
-	r, built, panicked, _ := w.hCall()
-	if !built || panicked {
+	args, okb := w.hBuildAll()
+	if !okb {
 		vnAssume(false)
 	}
+	if vnBool("redefineFirst") {
+		// planning through the run-once function before its first real use must not disturb it
+		hGuardPlain(func() {
+			_, _ = w.Funcs[0].Redefine(append(append([]Arg{}, args...), FilterInput(FilterType(hType(hTP0))))...)
+		})
+		vnNoteAppend(" [Redefine with an input filter first]")
+	}
+	w.Log = nil
+	var r Result
+	if hGuardPlain(func() { r = w.Funcs[0].Call(args...) }) {
+		vnAssert(false, "C17.once.converter-use-does-not-panic")
+		return
+	}
 	vnAssert(r.Err() == nil, "C17.once.converter-use-succeeds")
-	if r.Err() != nil || len(w.Log) == 0 || w.Log[0].Fn != 1 {
+	ranFirst := len(w.Log) > 0 && w.Log[0].Fn == 1
+	vnAssert(ranFirst, "C17.once.first-real-use-executes-the-function")
+	if r.Err() != nil || !ranFirst {
 		return
 	}
 	first := w.Log[0].Out[0]
